@@ -1,6 +1,7 @@
 package ext
 
 import (
+	"strconv"
 	"strings"
 
 	lang "github.com/alligator/jqawk/src"
@@ -205,38 +206,64 @@ func VHC13Quotes() {
 
 var c13AdjOps = []string{"-", "+", "*", "/", "<", "==", "%"}
 
-// VHC13Numbers: numeric literals are digits with an optional fraction and never absorb
-// an adjacent operator: `A-B`, `A -B`, `A- B` all mean `A - B`.
+// VHC13Numbers: numeric literals are digit sequences with an optional fraction, read in
+// base ten (leading zeros included), and never absorb an adjacent operator: `A-B`,
+// `A -B`, `A- B` all mean `A - B`. The oracle is the reference value of the spelling
+// (strconv.ParseFloat of the same symbolic digits) carried in the document.
 func VHC13Numbers() {
 	op := c13AdjOps[vh.Choose("op", len(c13AdjOps))]
-	a := vh.Bytes("a", 1+vh.Choose("la", 2))
-	b := vh.Bytes("b", 1+vh.Choose("lb", 2))
-	for i := 0; i < len(a); i++ {
-		vh.Assume(vh.InRange(a[i], '0', '9'))
+	// digits are drawn from tables: their arithmetic never reaches the solver
+	la, lb := 1+vh.Choose("la", 2), 1
+	ab, bb := make([]byte, la), make([]byte, lb)
+	for i := range ab {
+		ab[i] = vh.ByteFrom("a"+itoa(i), "0123456789")
 	}
-	for i := 0; i < len(b); i++ {
-		vh.Assume(vh.InRange(b[i], '1', '9')) // non-zero: / and % stay defined
+	for i := range bb {
+		bb[i] = vh.ByteFrom("b"+itoa(i), "123456789") // non-zero: / and % stay defined
 	}
-	frac := vh.Choose("frac", 2) == 1
-	if frac {
+	a, b := string(ab), string(bb)
+	switch vh.Choose("lead", 3) { // leading zeros are part of the spelling, the value is decimal
+	case 1:
+		a = "0" + a
+	case 2:
+		a = "00" + a
+	}
+	if vh.Choose("frac", 2) == 1 {
 		a += ".5"
 	}
-	want, wk := c13Run("BEGIN { x = " + a + " " + op + " " + b + "; print x == ((" + a + ") " + op + " (" + b + ")) }")
-	vh.Assert(wk == OK && want == "true\n", "C13: spaced form evaluates")
-	sp := vh.Choose("spacing", 3)
+	va, _ := strconv.ParseFloat(a, 64)
+	vb, _ := strconv.ParseFloat(b, 64)
+	var want sres
+	switch op {
+	case "<", "==":
+		want = specCompare(op, sv{kind: kNum, num: va}, sv{kind: kNum, num: vb})
+	default:
+		want = specArith(op, sv{kind: kNum, num: va}, sv{kind: kNum, num: vb})
+	}
+	doc := map[string]any{"ea": va}
+	if want.kind == resBool {
+		doc["er"] = want.b
+	} else {
+		doc["er"] = want.num
+	}
 	var expr string
-	switch sp {
+	switch vh.Choose("spacing", 4) {
 	case 0:
 		expr = a + op + b
 	case 1:
 		expr = a + " " + op + b
 	case 2:
 		expr = a + op + " " + b
+	case 3:
+		expr = a + " " + op + " " + b
 	}
-	got, gk := c13Run("BEGIN { x = " + expr + "; print x == ((" + a + ") " + op + " (" + b + ")) }")
+	var out vh.Out
+	ds := &vh.DocStream{Items: []any{doc}}
+	_, err := lang.EvalProgram("{ x = "+expr+"; print "+a+" == $.ea, x == $.er }", []lang.InputFile{{Name: "f", Reader: ds}}, nil, &out, false)
+	k := legal(err, "EvalProgram")
 	vh.Reach("adjacent literal evaluated")
-	vh.Assert(gk == OK, "C13: an operator written directly against a number is still an operator")
-	vh.Assert(got == "true\n", "C13: `A"+op+"B` means `A "+op+" B`")
+	vh.Assert(k == OK, "C13: an operator written directly against a number is still an operator")
+	vh.Assert(out.String() == "true true\n", "C13: a numeric literal denotes its decimal value and `A"+op+"B` means `A "+op+" B`")
 }
 
 var c13Keywords = []string{"BEGIN", "END", "BEGINFILE", "ENDFILE", "print", "function", "return", "if", "else", "for", "while", "in", "match", "true", "false", "break", "continue", "next", "exit", "null", "is"}
